@@ -115,12 +115,25 @@ def _include_case(item):
     _A.update(on=True, root=S, opens=[])
     outcome = 'ok'
     err = ''
+    # the ways a user names the cart: absolute, relative to its directory, relative to the parent, with redundant components
+    how = (len(inc) + len(arg)) % 4
+    cwd = os.getcwd()
+    given = cart
+    if how == 1:
+        os.chdir(os.path.dirname(cart))
+        given = 'cart.p8'
+    elif how == 2:
+        os.chdir(os.path.dirname(os.path.dirname(cart)))
+        given = os.path.join(os.path.basename(os.path.dirname(cart)), 'cart.p8')
+    elif how == 3:
+        given = os.path.join(os.path.dirname(cart), '.', 'cart.p8')
     try:
-        gfile.from_file(cart)
+        gfile.from_file(given)
     except Exception as e:  # noqa
         outcome = 'error'
         err = type(e).__name__
     finally:
+        os.chdir(cwd)
         _A['on'] = False
         if old_home is None:
             os.environ.pop('HOME', None)
@@ -268,6 +281,69 @@ def run_mode(ctx, mode, maxlen):
     return recs
 
 
+def _load_history(item):
+    """loads of carts that carry the same file name in nested directories, one after the other in one process, named
+    relatively or absolutely: every load is judged on its own (the rule does not depend on what was loaded before)"""
+    hist, tmp = item
+    from pico8.game import file as gfile
+    ensure_hook()
+    if 'hist' not in _SB:
+        S = tempfile.mkdtemp(prefix='c12h_', dir=tmp)
+        for d in ((), ('proj',), ('proj', 'sub'), ('proj', 'sub', 'deep'), ('projx',)):
+            os.makedirs(os.path.join(S, *d), exist_ok=True)
+            with open(os.path.join(S, *d, 'x.lua'), 'wb') as f:
+                f.write(b'canary_' + b'_'.join(c.encode() for c in d) + b'=1\n')
+        _SB['hist'] = S
+    S = _SB['hist']
+    out = []
+    cwd = os.getcwd()
+    for d, inc, how in hist:
+        cartdir = os.path.join(S, *d)
+        with open(os.path.join(cartdir, 'cart.p8'), 'wb') as f:
+            f.write(b'pico-8 cartridge // http://www.pico-8.com\nversion 8\n__lua__\n#include ' + inc.encode() + b'\ny=2\n__gfx__\n')
+        _A.update(on=True, root=S, opens=[])
+        outcome = 'ok'
+        try:
+            if how == 'relative':
+                os.chdir(cartdir)
+                gfile.from_file('cart.p8')
+            else:
+                gfile.from_file(os.path.join(cartdir, 'cart.p8'))
+        except Exception as e:  # noqa
+            outcome = 'error'
+        finally:
+            os.chdir(cwd)
+            _A['on'] = False
+        opens = [comps_of(p, S) for p in _A['opens'] if os.path.basename(p) != 'cart.p8']
+        out.append({'roots': [list(d)], 'opens': opens, 'mustError': inc.startswith('..'), 'outcome': outcome})
+    return out
+
+
+def load_histories(ctx):
+    import itertools
+    kinds = [(d, inc, how) for d in (('proj',), ('proj', 'sub'), ('proj', 'sub', 'deep')) for inc in ('x.lua', '../x.lua', '../../x.lua', '../projx/x.lua')
+             for how in ('relative', 'absolute')]
+    hists = [list(p) for p in itertools.product(kinds, repeat=2)]
+    if ctx.quick:
+        hists = hists[::3]
+    res = core.parmap(_load_history, [(h, ctx.tmp) for h in hists], procs=8)
+    traces = [t for r in res for t in r]
+    v = ctx.validate('TracePaths', traces)
+    k = 0
+    for h in hists:
+        for j, step in enumerate(h):
+            vv, t = v[k], traces[k]
+            k += 1
+            if vv[0] == 'ok':
+                ctx.nontrivial += 1
+            else:
+                ctx.violation('include-history/%s/%s' % (vv[0], step[2]), 'load %d of a history of loads in one process (%s): cart in %s named %sly with #include %s: %s; outcome %s; opened %s' % (
+                    j + 1, [('/'.join(x[0]), x[1], x[2]) for x in h], '/'.join(step[0]), step[2], step[1], vv[0], t['outcome'], ['/'.join(o) for o in t['opens']]),
+                    {'kind': 'include-history', 'history': [[list(x[0]), x[1], x[2]] for x in h]})
+    ctx.evaluations += len(traces)
+    ctx.notes['include_history_loads'] = len(traces)
+
+
 def run(ctx):
     core.quiet_picotool()
     ensure_hook()
@@ -280,6 +356,7 @@ def run(ctx):
     n = 4 if ctx.quick else 5
     recs = run_mode(ctx, 'include', n)
     run_mode(ctx, 'require', n)
+    load_histories(ctx)
     # canaries
     v = ctx.validate('TracePaths', [{'roots': [['w', 'foo']], 'opens': [['w', 'foobar', 'x.lua']], 'mustError': True, 'outcome': 'ok'},
                                      {'roots': [['w', 'foo']], 'opens': [], 'mustError': True, 'outcome': 'ok'},
